@@ -43,6 +43,13 @@ struct Ctx {
     }
 
     // runs in which the broker repeats acknowledgements use the relaxed witness rule of C01/C14
+    // Bytes delivered to the client at seq d are parsed some time before its next read on that connection starts
+    // (assemble_op only reads when no complete packet is buffered): an upper bound of when a delivered packet was processed.
+    uint64_t processed_by(int conn, uint64_t d) const {
+        if (getenv("SIM_OLD_WINDOW")) return d;
+        for (auto& rr : s.net.reads) if (rr.conn == conn && rr.seq_start > d) return rr.seq_start;
+        return UINT64_MAX;
+    }
     bool relaxed_witness() const { return s.plan.knobs.broker.dup_ack_p > 0; }
     bool want(const char* prop) const { return only.empty() || only == "all" || only == prop; }
 
